@@ -56,7 +56,7 @@ func (c *Ctx) checkRollingLoggerSemantics(r *Report, ro *Roles, rule string) map
 		}
 		var oodWhy string
 		type rng struct{ lo, hi int64 }
-		ranges := []rng{{0, 999}, {300, 999}, {300, 500}, {400, 600}, {500, 501}}
+		ranges := []rng{{0, 999}, {300, 999}, {300, 500}, {400, 600}, {500, 501}, {500, 999}, {450, 999}}
 	outer:
 		for _, separate := range []bool{false, true} {
 			for _, withLayout := range []bool{false, true} {
@@ -94,7 +94,19 @@ func (c *Ctx) checkRollingLoggerSemantics(r *Report, ro *Roles, rule string) map
 							case f.Name() == "BufferSize":
 								return kInt(1000), true
 							case types.Identical(f.Type(), ew.ll.rangeT):
-								return ew.ll.rangeValue(ip, lr.lo, lr.hi), true
+								// registered levels by their registered names (MAX is what "open-ended" is compared with)
+								nameOf := func(code int64) string {
+									for _, li := range ew.lg {
+										if li.code == code {
+											return li.name
+										}
+									}
+									return fmt.Sprintf("L%d", code)
+								}
+								rg := ip.zeroOf(ew.ll.rangeT).(*StructV)
+								rg.F[ew.ll.minIdx] = ew.ll.level(ip, lr.lo, nameOf(lr.lo))
+								rg.F[ew.ll.maxIdx] = ew.ll.level(ip, lr.hi, nameOf(lr.hi))
+								return rg, true
 							}
 							return nil, false
 						})
@@ -183,7 +195,7 @@ func (c *Ctx) checkRollingLoggerSemantics(r *Report, ro *Roles, rule string) map
 								}
 							}
 						}
-						for _, L := range []int64{lr.lo, lr.lo + 1, 299, 300, 399, 400, 401, 499, 500, lr.hi - 1} {
+						for _, L := range []int64{lr.lo, lr.lo + 1, 299, 300, 399, 400, 401, 499, 500, 501, 600, 700, lr.hi - 1} {
 							if L < lr.lo || L >= lr.hi {
 								continue
 							}
@@ -255,7 +267,7 @@ func (c *Ctx) checkRollingLoggerSemantics(r *Report, ro *Roles, rule string) map
 			r.Fail(key, c.pos(T.Obj().Pos()), "%d deviations, e.g. %s", nBad, strings.Join(bad, "; "))
 		default:
 			res[T.Obj().Name()] = true
-			r.OK(key, "synchronous mode evaluated end to end over the scripted clock and file system (%d calls: 5 configured ranges × separate on/off × logger layout on/off × empty directory / old own files of the running period): Start opens one file (two with separate) and removes nothing it writes to, GetLevel is the configured range, every in-range event is written exactly once — to the .wf file iff separate and level ≥ WARN —, raw bytes reach every file unchanged, Stop closes everything", runs)
+			r.OK(key, "synchronous mode evaluated end to end over the scripted clock and file system (%d calls: 7 configured ranges × separate on/off × logger layout on/off × empty directory / old own files of the running period): Start opens one file (two with separate) and removes nothing it writes to, GetLevel is the configured range, every in-range event is written exactly once — to the .wf file iff separate and level ≥ WARN —, raw bytes reach every file unchanged, Stop closes everything", runs)
 		}
 	}
 	return res
